@@ -35,12 +35,18 @@ func Transact(db *gorm.DB, fnList ...GormProcFn) (err error) {
 		return
 	}
 
+	// completed: every step has returned. If the deferred function runs before that
+	// without an error and without a panic, the goroutine is exiting inside a step
+	// (runtime.Goexit, e.g. t.FailNow): the work is incomplete and must not be committed.
+	var completed bool
 	defer func() {
 		if err == nil {
 			var catch = recover()
 			if catch != nil {
 				ulog.Error("db.transaction.panic.error", zap.Stack("stack"))
 				err = fmt.Errorf("db.transaction.panic:%+v", catch)
+			} else if !completed {
+				err = fmt.Errorf("db.transaction.aborted: a step did not return")
 			}
 		}
 
@@ -59,6 +65,7 @@ func Transact(db *gorm.DB, fnList ...GormProcFn) (err error) {
 			return
 		}
 	}
+	completed = true
 
 	return
 }
